@@ -54,6 +54,8 @@ func checkC07(c *Ctx) {
 	c.Rule("C07.3", "accessor(constructor(args)) = clamped args for all args: the matching accessor returns true on every path and its out-parameters equal the clamped arguments", 8)
 	c.Rule("C07.5", "loopback: a message sent through the loopback port arrives with the same value — live decoder equals the receiver model in every (state, input class) cell, the listener stage is the identity on every decoder output shape, the loopback Send forwards bytes and time unchanged", 40)
 	c.Rule("C07.4", "acceptance table: every other type-specific accessor rejects the constructor's result (derived views GetNoteStart/GetNoteEnd/GetChannel exempt)", 8)
+	c.Rule("C07.6", "loopback with the default options loses nothing but what the options name: the driver's filter drops exactly active sensing, timing clock and sysex when their option is off and forwards every other message once, unchanged (= C14.2, C14.4) — time code quarter frames, song position, song select, tune request and all channel messages arrive", 3)
+	c.include(checkC14, map[string]string{"C14.2": "C07.6", "C14.4": "C07.6"})
 
 	mp := p.Pkg("")
 	if mp == nil {
